@@ -840,7 +840,10 @@ def ref_arith(op, args):
             if math.isinf(a) or math.isnan(a): return None
             if op == 'ftruncate': return ('float', math.copysign(float(math.trunc(a)), a))
             if abs(a - math.trunc(a)) == 0.5: return None        # exact ties excluded by the property
-            return ('float', math.copysign(float(math.floor(abs(a) + 0.5)), a))
+            # nearest integral float, computed exactly (|a| + 0.5 would itself be rounded by the hardware)
+            from fractions import Fraction
+            fa = Fraction(abs(a)); fl = fa.numerator // fa.denominator
+            return ('float', math.copysign(float(fl + (1 if fa - fl > Fraction(1, 2) else 0)), a))
     except OverflowError:
         return None
     return None
@@ -874,7 +877,7 @@ def check_C13(tier, seed):
     for op in ('mod', 'expt'):
         for a, b in itertools.product(vals, vals): add(op, [a, b])
     for op in ('1+', '1-', 'fround', 'ftruncate'):
-        for a in vals + [0.4999999999999999, 1e15 + 0.3, -0.7, 123456.789]: add(op, [a])
+        for a in vals + [0.4999999999999999, 0.49999999999999994, -0.49999999999999994, 4503599627370497.0, -4503599627370497.0, 6755399441055745.0, 9007199254740991.0, 0.5, -0.5, 1.5, 2.5, 1e15 + 0.3, -0.7, 123456.789]: add(op, [a])
     for _ in range(tier_n(tier, 2500, 60000)):
         op = rng.choice(nary)
         n = rng.choice([3, 3, 4, 5])
@@ -1014,6 +1017,12 @@ def check_C12(tier, seed):
         if rng.random() < 0.2 and pl: pl = pl[:-1]
         prop = rng.choice(['a', 'b', ':k', 'zz'])
         add('(plist-get %s %s)' % (lit(pl), lit(prop)), (lambda pl=pl, prop=prop: L.plist_get(pl, prop)))
+    for al_, key_ in [([(1, 'a'), (2, 'b'), (3, 'c')], 2), ([(10, 'small'), (20, 'medium'), (30, 'large')], 15), ([(5, 'x')], 5), ([(3, 'p'), (1, 'q')], 2)]:
+        alit = "'(" + ' '.join('(%d . %s)' % (k, v) for k, v in al_) + ')'
+        for tf, fn_ in [("'<", lambda ek, k: ek < k), ("'>", lambda ek, k: ek > k), ("(lambda (ek k) (< (* 2 ek) k))", lambda ek, k: 2 * ek < k), ("(lambda (ek k) (tick ek k))", lambda ek, k: True)]:
+            hit = next(((k, v) for k, v in al_ if fn_(k, key_)), None)
+            add('(assoc %d %s %s)' % (key_, alit, tf), (lambda hit=hit: None if hit is None else Dot([hit[0]], hit[1])))
+            add("(alist-get %d %s 'none nil %s)" % (key_, alit, tf), (lambda hit=hit: 'none' if hit is None else hit[1]))
     # higher order: visit every element once, in order (tick log = order of visits)
     fns = [("'1+", lambda x: x + 1), ("#'1+", lambda x: x + 1), ('(lambda (p) (* p 2))', lambda x: x * 2),
            ('(let ((k 3)) (lambda (p) (+ p k)))', lambda x: x + 3), ('(lambda (p) (tick 1 p))', lambda x: x),
